@@ -40,6 +40,7 @@ pub struct Generator
 	local_variables: std::collections::HashMap<u32, LLVMValueRef>,
 	local_labeled_blocks: std::collections::HashMap<u32, LLVMBasicBlockRef>,
 	used_intrinsics: std::collections::HashMap<&'static str, LLVMValueRef>,
+	structure_types: std::collections::HashMap<String, LLVMTypeRef>,
 	target_triple: CString,
 	data_layout: CString,
 	type_of_usize: LLVMTypeRef,
@@ -78,6 +79,7 @@ impl Generator
 				local_variables: std::collections::HashMap::new(),
 				local_labeled_blocks: std::collections::HashMap::new(),
 				used_intrinsics: std::collections::HashMap::new(),
+				structure_types: std::collections::HashMap::new(),
 				target_triple,
 				data_layout,
 				type_of_usize,
@@ -143,6 +145,10 @@ impl Generator
 		// The cached declarations of snprintf, write and abort belong to the
 		// previous module; they have to be declared again in this one.
 		self.used_intrinsics.clear();
+		// Every module declares the structures it uses itself. Named types
+		// live in the context, which all modules share, and linking renames
+		// them: a type found by name may belong to another module.
+		self.structure_types.clear();
 
 		Ok(())
 	}
@@ -175,7 +181,10 @@ impl Generator
 	) -> Result<(), anyhow::Error>
 	{
 		let name = CString::new(structure_name)?;
-		unsafe { LLVMStructCreateNamed(self.context, name.as_ptr()) };
+		let struct_type =
+			unsafe { LLVMStructCreateNamed(self.context, name.as_ptr()) };
+		self.structure_types
+			.insert(structure_name.to_string(), struct_type);
 		Ok(())
 	}
 
@@ -533,16 +542,17 @@ fn declare(
 			depth: _,
 		} =>
 		{
-			let name = CString::new(&name.name as &str)?;
-			let struct_type = unsafe {
-				let x = LLVMGetTypeByName(llvm.module, name.as_ptr());
-				if !x.is_null()
+			let struct_type = match llvm.structure_types.get(&name.name)
+			{
+				Some(x) => *x,
+				None =>
 				{
+					let cname = CString::new(&name.name as &str)?;
+					let x = unsafe {
+						LLVMStructCreateNamed(llvm.context, cname.as_ptr())
+					};
+					llvm.structure_types.insert(name.name.clone(), x);
 					x
-				}
-				else
-				{
-					LLVMStructCreateNamed(llvm.context, name.as_ptr())
 				}
 			};
 
@@ -1373,8 +1383,21 @@ impl Generatable for ValueType
 				size_in_bytes: _,
 			} =>
 			{
-				let struct_name = CString::new(&identifier.name as &str)?;
-				unsafe { LLVMGetTypeByName(llvm.module, struct_name.as_ptr()) }
+				match llvm.structure_types.get(&identifier.name)
+				{
+					Some(x) => *x,
+					None =>
+					{
+						let struct_name =
+							CString::new(&identifier.name as &str)?;
+						unsafe {
+							LLVMGetTypeByName(
+								llvm.module,
+								struct_name.as_ptr(),
+							)
+						}
+					}
+				}
 			}
 			ValueType::UnresolvedStructOrWord { .. } => unreachable!(),
 			ValueType::Pointer { deref_type }
@@ -2765,8 +2788,7 @@ fn format_struct(
 	buffer.add_user_text(&struct_name.name, llvm)?;
 	buffer.add_text(" {");
 
-	let sname = CString::new(&struct_name.name as &str)?;
-	let struct_type = unsafe { LLVMGetTypeByName(llvm.module, sname.as_ptr()) };
+	let struct_type = llvm.structure_types.get(&struct_name.name).copied();
 	// TODO print members
 	let _ = (argument, struct_type);
 
